@@ -239,10 +239,15 @@ theorem units_font_relative (T : Table) (c : Ctx) (n : Node) (p : Nat) (x f : Ra
   simp [computePure, hck, lengthPure, fsArg, needsFS, isFontRelative, hx, hfs, lengthArith, pxPer,
     Val.num?, asPixels, uEm, uEx, uCh, uPx, uPt, uPc, uIn, uCm, uMm, uQ, uRem]
 
+/-- rem × the root element's computed font size; on the root element itself (no parent) that is the
+    element's own computed font size -/
 theorem units_rem (T : Table) (c : Ctx) (n : Node) (p : Nat) (x f : Rat) (uf : Nat)
-    (hck : T.ck p = .length) (hx : x ≠ 0) (hr : c.rootFS = .dim f uf) :
+    (hck : T.ck p = .length) (hx : x ≠ 0)
+    (hr : (match c.par with | none => fontSizePure T c n | some _ => c.rootFS) = .dim f uf) :
     computePure T c n p (.dim x uRem) = .dim (x * f) uPx := by
-  simp [computePure, hck, lengthPure, rootArg, needsRoot, hx, hr, lengthArith, pxPer,
+  have h1 : rootArgL T c n (.dim x uRem) = .dim f uf := by
+    unfold rootArgL; simp only [needsRoot, uRem]; simp [hx]; exact hr
+  simp [computePure, hck, lengthPure, h1, lengthArith, pxPer, hx,
     Val.num?, asPixels, uEm, uEx, uCh, uPx, uPt, uPc, uIn, uCm, uMm, uQ, uRem]
 
 /-- on `font-size` itself em and % refer to the PARENT's computed font size (the initial one on the
